@@ -68,6 +68,9 @@ def gen_source(rng, idx, big=None):
         body += ["\texpect 1200\n\tbar%d\n\tendexpect" % i]
     if fatal:
         body.append("\tfatal \"boom\"")
+    if rng.chance(0.2):
+        # listing control: where a diagnostic is shown depends on the listing being switched on at that moment
+        body += rng.choice([["\tlisting off"], ["\tlisting off", "\tlisting on"], ["\tlisting noskipped"], ["\tsave", "\tlisting off", "\trestore"]])
     if ne <= 2000 and nw <= 2000:
         rng.shuffle(body)
     L += body
@@ -83,7 +86,7 @@ def gen_source(rng, idx, big=None):
 
 LATE = ["v%d\tequ 1\n\tpushv st%d,v%d", "\tif 1\n\tnop", "\tsave", "\tsection sec%d\n\tnop", "rec%d\tstruct\nf\tdfs 1",
         "mac%d\tmacro\n\tnop", "\tphase 100\n\tnop", "\tsave\n\tsave", "v%d\tequ 1\n\tpushv st%d,v%d\n\tpushv su%d,v%d"]
-OPTS = [["-Werror"], ["-maxerrors", "1"], ["-maxerrors", "3"], ["-x"], ["-x", "-x"], ["-n"], ["-w"], ["-L"],
+OPTS = [["-l"], ["-Werror"], ["-maxerrors", "1"], ["-maxerrors", "3"], ["-x"], ["-x", "-x"], ["-n"], ["-w"], ["-L"],
         ["-gnuerrors"], ["-E", "!1"], ["-E", "!2"], ["-E", "err.log"], ["-E"], ["-g", "MAP"], ["-u"], ["-C"],
         ["-a"], ["-c"], ["-P"], ["-M"], ["-G"]]
 
@@ -221,6 +224,15 @@ def judge(sc, names, r, san):
         if m in alltxt or m in r.stdout or m in r.stderr:
             fatal_seen = True
     total_err = sum(d[0] for d in per_file.values())
+    lst_stdout = "-l" in opts
+    lst_e = lst_w = 0
+    if lst_stdout:
+        if chan == "<stdout>":
+            return [], {}  # listing and diagnostics share one stream: not told apart here
+        # a diagnostic raised while the listing goes to stdout is shown there and not repeated on the error channel
+        lst_e, lst_w, lf = count_diags(r.stdout, gnu)
+        total_err += lst_e
+        fatal_seen = fatal_seen or lf
     code = r.code
     stats = {"errors": total_err, "fatal": int(fatal_seen)}
     # (a) exit 0 <=> no error and no fatal
@@ -243,10 +255,25 @@ def judge(sc, names, r, san):
             out.append(("C02/exit0-no-code-file", "exit 0 but %s.p does not exist" % n))
         if code == 0 and p == b"stale code file":
             out.append(("C02/exit0-stale-code-file", "%s.p is still the stale file" % n))
+        if lst_stdout:
+            continue  # diagnostics inside the stdout listing are not attributed to single files
         if d[0] == 0 and d[1] > 0 and not werror and not fatal_seen and code == 2 and total_err == 0:
             out.append(("C02/warnings-changed-status", "only warnings for %s but exit 2" % n))
     # (f) summary
-    if chan != "<stdout>":
+    if lst_stdout:
+        sums = parse_summary(r.stdout)
+        per = 1 if "-q" in opts else 2  # the listing's own summary, plus the console summary unless quiet
+        if sums and not fatal_seen and len(sums) == per * len(names) and all(x[0] is not None and x[1] is not None for x in sums):
+            se = sum(x[0] for x in sums) // per
+            if se != total_err:
+                out.append(("C02/summary-error-count", "summaries say %d errors in total, %d error lines written (stderr and stdout listing)" % (se, total_err)))
+            sw = sum(x[1] for x in sums) // per
+            tw = sum(d[1] for d in per_file.values()) + lst_w
+            if sw != tw and "-w" not in opts and len(names) == 1:
+                # earlier passes' warnings go to stderr and are counted per pass there; with one file the last segment is the last pass
+                if sw != lst_w + per_file.get(names[0], [0, 0, False])[1]:
+                    out.append(("C02/summary-warning-count", "summary says %d warnings, %d warning lines written" % (sw, tw)))
+    elif chan != "<stdout>":
         sums = parse_summary(r.stdout) if "-q" not in opts else []
         lsts = []
         if "-L" in opts and "-olist" not in opts:
